@@ -298,7 +298,7 @@ def optional_keys(ctx, rule):
     il = q.root_local(a.field("ignore_list"))
     shapes = dict((sh, site) for sh, site, _ in q.def_shapes(body, il, {})) if il is not None else {}
     none_ok = any(sh == "Option::None{}" and has_fact(body, site[0], {}, ("true", "BTreeSet::is_empty(arg1.ignore_list)", None)) for sh, site in shapes.items())
-    some_ok = any(sh.startswith("Option::Some{0:Iterator::collect(Iterator::cloned(BTreeSet::iter(arg1.ignore_list)))") for sh in shapes)
+    some_ok = any(sh.startswith("Option::Some{0:Iterator::collect(BTreeSet::iter(arg1.ignore_list))") for sh in shapes)
     ctx.check(none_ok and some_ok and len(shapes) == 2, rule, body.path, "ignore_list", "ignoreList is None for an empty ignore list and the collected set otherwise", detail=str(list(shapes)))
     sc = q.root_local(a.field("sources_content"))
     shapes = [sh for sh, site, _ in q.def_shapes(body, sc, {})] if sc is not None else []
@@ -494,13 +494,31 @@ def whole_document(ctx, rule):
     from callgraph import CallGraph
     cg = CallGraph(ctx.facts)
     users = sorted(set(__import__("pf")._root(c) for c in cg.callers("encoder::encode")))
-    ctx.check(all(u.endswith("::to_writer") or u.endswith("::to_data_url") for u in users) and len(users) >= 4, rule, e.path, "callers", "every to_writer / to_data_url goes through encode", detail=str(users))
+    # every serialising entry point reaches encode: directly, or through another map's to_writer
+    entry = [b.path for b in ctx.facts.local_fns() if b.kind == "AssocFn" and (b.path.endswith("::to_writer") or b.path.endswith("::to_data_url")) and (b.path.startswith("types::") or b.path.startswith("hermes::"))]
+    def reaches(p, seen=()):
+        if p in users:
+            return True
+        callees = set()
+        for bi, t in ctx.body(p).calls():
+            c = t.get("resolved") or t.get("callee") or ""
+            if t.get("resolved_local") and (c.endswith("::to_writer") or c.endswith("::to_data_url")) and c not in seen and c != p:
+                callees.add(c)
+        return any(reaches(c, tuple(seen) + (p,)) for c in callees)
+    ok = all(u.endswith("::to_writer") or u.endswith("::to_data_url") for u in users) and len(users) >= 3 and len(entry) >= 5 and all(reaches(p) for p in entry)
+    ctx.check(ok, rule, e.path, "callers", "every to_writer / to_data_url goes through encode (directly or through another map's to_writer)", detail=str(users) + " entry points: " + str(entry))
 
 
 def hermes_payload(ctx, rule):
     h = ctx.body(AS_RAW["hermes"])
     calls = [q.shape(h.expr_of_call(t)) for bi, t in h.calls()]
     ok = any(q.wild("Clone::clone_from(*x_facebook_sources,arg1.raw_facebook_sources)", c) for c in calls)
+    if not ok:
+        # the same with struct update syntax: RawSourceMap { x_facebook_sources: raw.clone(), ..self.sm.as_raw_sourcemap() }
+        lit = [h.expr_of_rvalue(s2["rv"]) for bi, si, s2, it in h.locations() if not it and s2["k"] == "assign" and s2["rv"]["k"] == "agg" and s2["rv"].get("adt") == "jsontypes::RawSourceMap"]
+        if len(lit) == 1:
+            REG = "SourceMap::as_raw_sourcemap(arg1.sm)"
+            ok = all((q.shape(op) == "arg1.raw_facebook_sources") if fld == "x_facebook_sources" else (q.shape(op) == "%s.%s" % (REG, fld)) for fld, op in zip(lit[0].fields, lit[0].ops))
     ctx.check(ok, rule, h.path, "x_facebook_sources", "the Hermes writer re-emits the retained raw x_facebook_sources", detail=str(calls))
 
 
